@@ -44,8 +44,13 @@ Ok(k, rs, s) == LET win == Winner(k, M(k, rs)) IN
                                  /\ (win # 0 => ImplOwner(k, s) = win)
                 ELSE TRUE
 
+\* liveness: a maximal-munch scanner follows the automaton for as long as it has a transition, so for a
+\* scanner table (live = TRUE) the automaton must be alive exactly as long as some definition can still match
+RefLive(rs) == \E i \in DOMAIN rs : rs[i] # {}
+LiveOk(k, rs, s) == Cases[k].live => ((s # 0) = RefLive(rs))
+
 Next == /\ Cases[c].perr = ""
-        /\ Ok(c, refs, impl)
+        /\ Ok(c, refs, impl) /\ LiveOk(c, refs, impl)
         /\ \E x \in 1..Len(Cases[c].classes) :
              LET cp == Cases[c].classes[x].rep
                  r2 == [i \in 1..ND(c) |-> StepRef(refs[i], cp)]
@@ -61,4 +66,5 @@ Agree ==
   /\ (w = <<>> /\ ~Built(c) /\ ~Cases[c].conflict) => Report("BUILDERROR")
   /\ (Built(c) /\ ~Ok(c, refs, impl)) => Report("DISAGREE")
   /\ (Winner(c, M(c, refs)) = -1) => Report("CONFLICTSTATE")
+  /\ (Built(c) /\ ~LiveOk(c, refs, impl)) => Report("LIVENESS")
 =============================================================================
